@@ -135,6 +135,24 @@ def check_c07(ctx):
             files["f%d.sysl" % i] = imps + "\nApp%d:\n    Ep:\n        step %d\nShared:\n    Log:\n        visited %d\n" % (i, i, i)
         main = "import f0\nimport f1\nimport f%d\n\nRoot:\n    Ep:\n        ...\n" % (n - 1)
         sources.append({"decls": [], "text": main, "files": files})
+    # sources that end in a syntax error after the lexer has changed its state (an import seen, a bracket open, an
+    # indentation level entered): a compile that fails must leave as little behind as one that succeeds
+    broken = ["import dep\nShop [~x\n    Ep:\n        ...\n",
+              "Shop:\n    Ep (a <: int, b <: [\n        ...\n",
+              "Shop:\n    !type T:\n        f <: sequence of\n",
+              "Shop:\n    Ep:\n        if x:\n            B <- \n",
+              "import a\nimport b as\nShop:\n    Ep:\n        ...\n",
+              "Shop:\n    /a/{id <: int:\n        GET:\n            ...\n"]
+    for i, b in enumerate(broken if not quick else broken[:4]):
+        sources.append({"decls": [], "text": b})
+    for f in rng.sample(fam_frontend.corpus_files(), 6 if quick else 40):
+        try:
+            text = open(os.path.join(core.repo_dir(), f), errors="replace").read()
+        except OSError:
+            continue
+        if "import " in text or len(text) < 200:
+            continue
+        sources.append({"decls": [], "text": text[:len(text) * 2 // 3] + " [~open, x=[\"a\""})
     groups = 4 if quick else 8
     scn = []
     for g in range(groups):
